@@ -48,7 +48,7 @@ Sound(o) == o.d = "sha256:" \o o.sha
 
 (* ---- O1: the archive is a well formed OCI layout ----------------------- *)
 (* S = [objs, edges, top, tag, single]   T = [names, types, alg, hex, calc, sha,
-   layoutN, layoutV, indexN, idig, iref, dockN, dcfg, dlayers, dtags]
+   layoutN, layoutV, indexN, idigs, irefs, dockN, dcfg, dlayers, dtags]
    alg[i]/hex[i] = "" unless names[i] is blobs/<alg>/<hex>; calc[i] = <alg>-hash of the content;
    sha[i] = sha256 of the content of every regular file. *)
 Files(T) == {i \in 1..Len(T.names) : T.types[i] = "file"}
@@ -72,8 +72,9 @@ DockerOK(S, T) ==
 O1(S, T) == First(<<
   <<T.layoutN # 1 \/ T.layoutV # "1.0.0", "O1-layout: oci-layout missing, duplicated or not version 1.0.0">>,
   <<T.indexN # 1, "O1-index: index.json missing or duplicated">>,
-  <<T.idig # S.top, "O1-index: index.json does not name the exported image">>,
-  <<S.tag # "" /\ T.iref # S.tag, "O1-tag: index.json does not carry the tag of the exported image">>,
+  <<~\E k \in 1..Len(T.idigs) : T.idigs[k] = S.top, "O1-index: index.json does not name the exported image">>,
+  <<S.tag # "" /\ ~\E k \in 1..Len(T.idigs) : T.idigs[k] = S.top /\ T.irefs[k] = S.tag,
+    "O1-tag: index.json does not carry the tag of the exported image">>,
   <<\E i \in BlobIdx(T) : T.calc[i] # T.hex[i], "O1-digest: an entry under a digest name has other content">>,
   <<\E i, j \in Files(T) : i # j /\ T.names[i] = T.names[j], "O1-once: an entry is written more than once">>,
   <<\E d \in Closure(S.edges, S.top) : d \notin ArchiveDigs(T), "O1-complete: content of the image is missing from the archive">>,
